@@ -205,18 +205,25 @@ func vhC01Check(rt *router.Router, c *vhCond, id, other int64, key interface{}) 
 	if err != nil {
 		return
 	}
+	tables := append([]int(nil), rule.GetSubTableIndexes()...)
 	has, result, _, err := handleComparisonExpr(p, c.exprNode)
 	if err != nil {
 		vs.Cover("C01/rejected")
 		return
 	}
+	// routing one statement must not edit the table list the rule shares with every other statement
+	same := len(rule.GetSubTableIndexes()) == len(tables)
+	for i := 0; same && i < len(tables); i++ {
+		same = rule.GetSubTableIndexes()[i] == tables[i]
+	}
+	vs.Assert(same, "C01/routing-leaves-the-rule's-table-list-unchanged")
 	if has {
 		p.GetRouteResult().Inter(result)
 	}
 	routed := p.GetRouteResult().GetShardIndexes()
 	vs.Assume(vhEval(c, id, other)) // the row is any row matching the condition
 	idx, ferr := rule.FindTableIndex(key)
-	if ferr != nil || !vhContains(rule.GetSubTableIndexes(), idx) {
+	if ferr != nil || !vhContains(tables, idx) {
 		vs.Cover("C01/no-table-holds-this-key")
 		return
 	}
